@@ -27,6 +27,8 @@ CONFIGS = {
     "mat23": dict(shape=(2, 3), slices=[(None, S_[0, :]), (None, S_[:, 1]), (None, S_[0:2, 1:3]),
                                         (None, S_[:, ::2]), (3, S_[1, :]), (None, (np.array([1, 0]), np.array([0, 2])))]),
     "scalar": dict(shape=(), slices=[]),
+    # the same machine without slices: replayed with DyadCarrier values (the type of every sparse-matrix sensitivity)
+    "vec3dyad": dict(shape=(3,), slices=[]),
 }
 
 
@@ -78,6 +80,7 @@ class Replayer:
 
     def __init__(self, name, keep_a, z=1.0):
         import pymoto as pym
+        self.dyad = name.endswith("dyad")
         self.cfg = CONFIGS[name]
         self.name = name
         self.z = z
@@ -85,7 +88,12 @@ class Replayer:
         self.scalar = shape == ()
         self.n = int(np.prod(shape)) if shape else 1
         dt = complex if isinstance(z, complex) else float
-        if self.scalar:
+        if self.dyad:
+            base = np.arange(1, self.n + 1)
+            self.u = {1: pym.DyadCarrier([(base * z).astype(dt)], [np.array([1.0])]),
+                      2: pym.DyadCarrier([(10 * base * z).astype(dt)], [np.array([1.0])])}
+            init = None
+        elif self.scalar:
             self.u = {1: dt(1 * z), 2: dt(10 * z)}
             init = dt(0.0) if keep_a else None
         else:
@@ -140,6 +148,12 @@ class Replayer:
             v[...] = 99
         elif op == "ResetSlice":
             self.sl[args[2][0] - 1].reset()
+        elif op == "UserMutate" and self.dyad:
+            import pymoto as pym
+            cur = self.u[args[0]].todense().ravel()[args[1] - 1]
+            e = np.zeros(self.n, dtype=self.dt)
+            e[args[1] - 1] = args[2] * self.z - cur
+            self.u[args[0]] += pym.DyadCarrier([e], [np.array([1.0])])       # in place: the caller changes the object it holds
         elif op == "UserMutate":
             self.u[args[0]].flat[args[1] - 1] = args[2] * self.z
         else:
@@ -149,7 +163,12 @@ class Replayer:
         """concrete value -> abstract (list of ints or "None"); non-representable -> description"""
         if x is None:
             return "None"
-        a = np.asarray(x)
+        if self.dyad:
+            a = np.asarray(x.todense())
+            if a.size == 0:
+                a = np.zeros(self.n)
+        else:
+            a = np.asarray(x)
         q = a.ravel() / self.z
         r = np.round(q.real)
         if not (np.all(np.abs(q - r) < 1e-9)):
@@ -208,10 +227,19 @@ def diff_fields(exp, got):
 REALISATIONS = [1.0, complex(1, 2)]
 
 
+def dyad_admissible(beh):
+    """DyadCarrier has no in-place zeroing (reset with kept allocation rebinds), so those steps are left to the array realisations"""
+    if beh["keepA"]:
+        return False
+    return not any(s["op"] == "Reset" and s["args"][1] == "T" for s in beh["steps"])
+
+
 def _replay_chunk(arg):
     name, behs = arg
     out = []
     for beh in behs:
+        if name.endswith("dyad") and not dyad_admissible(beh):
+            continue
         for z in REALISATIONS:
             res = replay_behaviour(name, beh, z)
             case = {"config": name, "z": repr(z), "keepA": beh["keepA"],
@@ -446,7 +474,7 @@ def run(chk, replay=None):
                         "integer-array slices have no repeated indices; nested slices are basic slices",
                         "values are small integers times a fixed real or complex unit (additive homomorphism)"]
     # [S] exhaustive checking of the declarative properties on the operational model
-    ex_depth = {"vec4": 6 if thorough else 4, "mat23": 5 if thorough else 4, "scalar": 8 if thorough else 6}
+    ex_depth = {"vec4": 6 if thorough else 4, "mat23": 5 if thorough else 4, "scalar": 8 if thorough else 6, "vec3dyad": 6 if thorough else 5}
     for name, d in ex_depth.items():
         model_check(chk, name, d)
     # vacuity guard: negative variants must be refuted
@@ -462,7 +490,7 @@ def run(chk, replay=None):
     with cf.ThreadPoolExecutor(max_workers=12) as ex:
         for name in CONFIGS:
             jobs.append(ex.submit(emit_behaviours, name, path_depth, None, 0, (1,)))
-            nsim = sim_n if name != "scalar" else sim_n // 4
+            nsim = sim_n if name not in ("scalar", "vec3dyad") else sim_n // 4
             chunks = 4 if thorough else 1
             for c in range(chunks):
                 jobs.append(ex.submit(emit_behaviours, name, sim_depth, nsim // chunks, chk.seed * 101 + 7 + c, (1, 3)))
